@@ -116,6 +116,34 @@ CHECKS = {
         "from hll_constants.py by precision.",
         "DESIGN.md 4 C17",
     ),
+    "C07": (
+        "exploration",
+        "complete enumeration of a fixed deterministic grid (precision x seed x n) through the real "
+        "update()/query(), checked against the HLL++ envelope",
+        "Every cell of p in 7..16 x 4 seeds (quick; 20-64 in the thorough tier) x a log-spaced n-grid "
+        "incl. the regime boundaries is built with deterministic key families and checked: empty -> "
+        "0.0 exactly; n small -> estimate <= linear counting of n registers (a theorem); otherwise "
+        "within 8 standard errors. It decides the envelope for those cells and catches gross "
+        "estimator/table/rank errors; a probabilistic claim over all key sets cannot be decided by "
+        "enumeration - the exhaustive statements about the same code are C02 and C17.",
+        "Level 'exploration' on purpose. k = 8 standard errors (1.04/sqrt(m)).",
+        "DESIGN.md 4 C07",
+    ),
+    "C14": (
+        "exploration",
+        "complete enumeration of a fixed key universe (all 1- and 2-byte keys) probed on the real "
+        "sketch: per-row and all-row-pair contingency tests with fixed limits; documented bound on "
+        "deterministic Zipf streams",
+        "The column every key of a 65 792-key universe owns in each of 8 rows is read off the real "
+        "sketch at widths 16 and 48; every row must be balanced and ALL 28 row pairs must pass a "
+        "contingency test for independence (limits < 1e-12 under the null, identical or bit-sliced "
+        "seeding exceeds them by orders of magnitude); the other counter types and depths must use the "
+        "same per-row functions; on three deterministic Zipf streams at most exp(-8) of the keys may "
+        "exceed true + e*N/width.",
+        "Level 'exploration' on purpose: a surrogate for independence over a fixed universe, not a "
+        "statement about the hash family.",
+        "DESIGN.md 4 C14",
+    ),
     "C09": (
         "model_checking",
         "exhaustive enumeration of counter pairs through the real merge kernels: all 256x256 log8 "
